@@ -65,5 +65,5 @@ func VerifCandidateParserNames(info Info, data []byte) []string {
 	return out
 }
 
-func VerifParseDERData(b []byte) Info { return parseDERData(b) }
+func VerifParseDERData(b []byte) Info  { return parseDERData(b) }
 func VerifParseASN1Data(b []byte) Info { return parseASN1Data(b) }
